@@ -22,7 +22,7 @@ let parse (s : string) : t =
         else (acc := item () :: !acc; loop ())
       in
       loop ();
-      L (List.rev !acc)
+      L (Stdlib.List.rev !acc)
     end else begin
       let st = !pos in
       while !pos < n && s.[!pos] <> ' ' && s.[!pos] <> '(' && s.[!pos] <> ')' do incr pos done;
@@ -40,7 +40,7 @@ let rec print (b : Buffer.t) (x : t) : unit =
   | A a -> Buffer.add_string b a
   | L l ->
       Buffer.add_char b '(';
-      List.iteri (fun i y -> if i > 0 then Buffer.add_char b ' '; print b y) l;
+      Stdlib.List.iteri (fun i y -> if i > 0 then Buffer.add_char b ' '; print b y) l;
       Buffer.add_char b ')'
 
 let to_string x = let b = Buffer.create 256 in print b x; Buffer.contents b
